@@ -422,5 +422,6 @@ pub fn property() -> Property {
         ],
         families,
         prelude: None,
+        epilogue: None,
     }
 }
